@@ -217,6 +217,24 @@ def check_cfg(k, tier, acc):
         acc.violation(None, case, {"what": "unpacked configurator polyhedron is not identical (matrix, dtype, variables, index, default priority vector)",
                                    "diff": diff(fP, fQ)})
         return
+    # the same string unpacked again AFTER the first result was edited in place (a polyhedron is a numpy array, users write into it):
+    # the second unpacking must still be the packed polyhedron, the two results may share nothing
+    try:
+        Qa = pnd.ge_polyhedron_config.from_b64(s1)
+        if Qa.size:
+            Qa[...] = 7
+        dv = np.asarray(Qa.default_prio_vector)
+        if dv.size and dv.flags.writeable:
+            dv[...] = -9
+        Qb = pnd.ge_polyhedron_config.from_b64(s1)
+        acc.n("transitions", 2)
+        if fingerprint(Qb) != fP:
+            acc.violation(None, case, {"what": "unpacking a string again after the first result was edited in place gives another polyhedron (results share memory)",
+                                       "diff": diff(fP, fingerprint(Qb))})
+            return
+    except BaseException as e:
+        acc.violation(None, case, {"what": "second unpacking raised", "exc": repr(e)})
+        return
     f0, f1 = fingerprint(cfg), fingerprint(cfg_back)
     if f0 != f1 or type(cfg_back) is not type(cfg):
         acc.violation(None, case, {"what": "unpacked configurator object is not structurally identical", "diff": diff(f0, f1)})
